@@ -16,6 +16,7 @@ class RefLoadMissing(Exception):
 def make_shim(table):
     shim = types.ModuleType("dds")
     shim.KEPT = []          # (path, canon value) in program order
+    shim.LOADS = []         # (path, number of keeps completed before the load)
     shim.TABLE = table      # path -> value
 
     def keep(path, fun, *a, **kw):
@@ -42,6 +43,7 @@ def make_shim(table):
 
     def load(path):
         p = os.fspath(path) if not isinstance(path, str) else path
+        shim.LOADS.append((p, len(shim.KEPT)))
         if p not in shim.TABLE:
             raise RefLoadMissing(p)
         return shim.TABLE[p]
@@ -76,6 +78,7 @@ def _ref_child(srcdir, requests, table, mutations, modules=()):
         if su is not None:
             del su.LOG[:]
         del shim.KEPT[:]
+        del shim.LOADS[:]
         before = dict(shim.TABLE)
         try:
             if rq.get("style") == "keep":
@@ -91,7 +94,11 @@ def _ref_child(srcdir, requests, table, mutations, modules=()):
             res = ["exc", type(e).__name__, str(e)[:300]]
             shim.TABLE.clear()
             shim.TABLE.update(before)
-        out.append({"res": res, "log": list(su.LOG) if su is not None else [], "kept": list(shim.KEPT)})
+        # a path read before it is produced in the same evaluation
+        early = sorted({p for (p, n) in shim.LOADS if any(kp == p for (kp, _) in shim.KEPT[n:])
+                        and not any(kp == p for (kp, _) in shim.KEPT[:n])})
+        out.append({"res": res, "log": list(su.LOG) if su is not None else [], "kept": list(shim.KEPT),
+                    "loads": list(shim.LOADS), "early_loads": early})
     return out, shim.TABLE
 
 
